@@ -600,6 +600,7 @@ func (v *Verifier) generate(bc *BoundContract) *FuncResult {
 			env.free[fv.Name()] = x
 		}
 		v.assumeGlobalAxioms(c, st, tTrue)
+		v.initFrame(c, bc, env)
 		for _, cl := range bc.C.Clauses {
 			if cl.Kind == "requires" {
 				t, err := env.evalBool(cl.Expr)
@@ -640,6 +641,7 @@ func (v *Verifier) generate(bc *BoundContract) *FuncResult {
 				c.addObl(f, &Obligation{Label: cl.Label, Pending: cl.Pending, Kind: "ensures", Site: site, Clause: cl.Text, Pos: cl.Pos, Guard: g, Goal: t, Where: f.posShort(ret.Pos())})
 			}
 			v.frameObligation(c, f, bc, s, g, site, env)
+			v.heapFrameObligation(c, f, bc, s, g, site, env, ret)
 			v.readonlyObligation(c, f, bc, s, g, site, ret)
 		}
 		c.loopWNew = false
@@ -725,6 +727,249 @@ func (v *Verifier) frameObligation(c *Ctx, fr *Frame, bc *BoundContract, s *Stat
 		return
 	}
 	c.addObl(fr, &Obligation{Kind: "frame", Site: site, Clause: "ghost state not listed in modifies/sets is unchanged: " + strings.Join(names, ", "), Guard: g, Goal: tAnd(parts...)})
+}
+
+// heapFrameObligation: an object that existed at entry and is not named by a modifies/sets clause has the same
+// fields, abstract fields, map contents and pointer cells at the return as at entry. Callers rely on this when
+// they apply the contract, so it is checked for every function under contract (not for trusted ones, nor when
+// the contract says "modifies everything").
+func (v *Verifier) heapFrameObligation(c *Ctx, fr *Frame, bc *BoundContract, s *State, g *Term, site string, env *Env, ret *ssa.Return) {
+	if bc.C.Trusted {
+		return
+	}
+	for _, cl := range bc.C.Clauses {
+		if cl.Kind == "readonly" {
+			return // the stronger readonly obligation covers it
+		}
+	}
+	if !c.frameOn {
+		return
+	}
+	ks := make([]string, 0, len(s.h))
+	for k := range s.h {
+		ks = append(ks, k)
+	}
+	goal, names := c.frameCond(s, ks)
+	if goal == nil {
+		return
+	}
+	c.addObl(fr, &Obligation{Kind: "frame-heap", Site: site, Clause: "objects that existed at entry and are not named in modifies/sets are unchanged (written: " + strings.Join(names, ", ") + ")", Guard: g, Goal: goal, Where: fr.posShort(ret.Pos())})
+}
+
+// initFrame evaluates the modifies/sets targets of the function under verification in its entry state.
+func (v *Verifier) initFrame(c *Ctx, bc *BoundContract, env *Env) {
+	c.frameOn = false
+	if bc.C.Trusted {
+		return
+	}
+	tenv := env.child()
+	tenv.st = c.entry
+	tenv.old = c.entry
+	tenv.frame = nil
+	tenv.blk = nil
+	targets := map[string][]*Term{}
+	for _, cl := range bc.C.Clauses {
+		var xs []Expr
+		switch cl.Kind {
+		case "modifies":
+			xs = cl.Exprs
+		case "sets":
+			xs = cl.Exprs[:1]
+		}
+		for _, x := range xs {
+			if id, ok := x.(*EIdent); ok && (id.Name == "everything" || id.Name == "anyheap") {
+				return
+			}
+			c.frameTargets(tenv, x, targets)
+		}
+	}
+	c.frameOn = true
+	c.frameT = targets
+}
+
+// frameCond: for the given heap keys, every object born before entry and not a modifies target has its entry value.
+func (c *Ctx) frameCond(s *State, keys []string) (*Term, []string) {
+	clk0 := c.keys["$clk"].init
+	ks := append([]string{}, keys...)
+	sort.Strings(ks)
+	var parts []*Term
+	var names []string
+	for _, k := range ks {
+		if !(strings.HasPrefix(k, "F:") || strings.HasPrefix(k, "P:") || strings.HasPrefix(k, "A:") || strings.HasPrefix(k, "MD:") || strings.HasPrefix(k, "MV:") || strings.HasPrefix(k, "AF:")) {
+			continue
+		}
+		hi := c.keys[k]
+		cur, ok := s.h[k]
+		if hi == nil || !ok || cur.S == hi.init.S {
+			continue
+		}
+		if ix, _, ok := arrParts(hi.sort); !ok || ix != SV {
+			continue
+		}
+		conds := []string{fmt.Sprintf("(< (birth r) %s)", clk0.S)}
+		for _, t := range c.frameT[k] {
+			conds = append(conds, fmt.Sprintf("(not (= r %s))", t.S))
+		}
+		parts = append(parts, mk(SBool, "(forall ((r V)) (! (=> (and %s) (= (select %s r) (select %s r))) :pattern ((select %s r))))", strings.Join(conds, " "), cur.S, hi.init.S, cur.S))
+		names = append(names, k)
+	}
+	if len(parts) == 0 {
+		return nil, nil
+	}
+	return tAnd(parts...), names
+}
+
+// frameTargets adds the (heap key, object) pairs a modifies/sets target allows to change.
+func (c *Ctx) frameTargets(env *Env, x Expr, out map[string][]*Term) {
+	add := func(k string, srt Sort, t *Term) {
+		c.key(k, srt)
+		out[k] = append(out[k], t)
+	}
+	var fieldsOf func(t types.Type, base *Term)
+	fieldsOf = func(t types.Type, base *Term) {
+		stt, ok := t.Underlying().(*types.Struct)
+		if !ok {
+			return
+		}
+		for i := 0; i < stt.NumFields(); i++ {
+			f := stt.Field(i)
+			if fs, ok := sortOf(f.Type()); ok {
+				if _, isArr := f.Type().Underlying().(*types.Array); !isArr {
+					add(fieldKey(t, f), ArrSort(SV, fs), base)
+					continue
+				}
+			}
+			if _, isStruct := f.Type().Underlying().(*types.Struct); isStruct {
+				fieldsOf(f.Type(), tApp(SV, c.embFun(t, f), base))
+			}
+		}
+	}
+	switch n := x.(type) {
+	case *ECall:
+		if id, ok := n.Fun.(*EIdent); ok && len(n.Args) == 1 {
+			switch id.Name {
+			case "mapof":
+				m, err := env.eval(n.Args[0])
+				if err != nil || m.T == nil {
+					return
+				}
+				mi, err := c.mapInfo(m.Typ)
+				if err != nil {
+					return
+				}
+				add(mi.dom, mi.domSort, m.T)
+				for _, l := range leavesOf(m.Typ.Underlying().(*types.Map).Elem()) {
+					k, ks := c.mapValKey(m.Typ, l)
+					add(k, ks, m.T)
+				}
+				return
+			case "fields":
+				p, err := env.eval(n.Args[0])
+				if err != nil || p.T == nil || p.Typ == nil {
+					return
+				}
+				if pt, ok := p.Typ.Underlying().(*types.Pointer); ok {
+					fieldsOf(pt.Elem(), p.T)
+				}
+				return
+			case "deref":
+				p, err := env.eval(n.Args[0])
+				if err != nil || p.T == nil || p.Typ == nil {
+					return
+				}
+				if pt, ok := p.Typ.Underlying().(*types.Pointer); ok {
+					if es, ok := sortOf(pt.Elem()); ok {
+						add("P:"+typeKey(pt.Elem()), ArrSort(SV, es), p.T)
+					}
+				}
+				return
+			}
+		}
+		if sel, ok := n.Fun.(*ESel); ok {
+			recv, err := env.eval(sel.X)
+			if err != nil || recv.T == nil || recv.Typ == nil {
+				return
+			}
+			obj, _, _ := types.LookupFieldOrMethod(recv.Typ, true, env.pkg, sel.Name)
+			m, ok := obj.(*types.Func)
+			if !ok {
+				return
+			}
+			if k, srt, err := c.afKey(m); err == nil {
+				add(k, srt, recv.T)
+			}
+			for _, b := range c.bridgesOf(m) {
+				fs, _ := sortOf(b.field.Type())
+				add(fieldKey(b.owner, b.field), ArrSort(SV, fs), c.bridgeBase(b, recv.T))
+			}
+		}
+	case *ESel:
+		recv, err := env.eval(n.X)
+		if err != nil || recv.T == nil || recv.Typ == nil {
+			return
+		}
+		owner, f, base, ok := c.fieldRef(env, recv, n.Name)
+		if !ok {
+			return
+		}
+		if fs, ok := sortOf(f.Type()); ok {
+			if _, isArr := f.Type().Underlying().(*types.Array); !isArr {
+				add(fieldKey(owner, f), ArrSort(SV, fs), base)
+				return
+			}
+		}
+		if _, isStruct := f.Type().Underlying().(*types.Struct); isStruct {
+			fieldsOf(f.Type(), tApp(SV, c.embFun(owner, f), base))
+		}
+	}
+}
+
+// fieldRef resolves p.name (possibly promoted through embedded structs) to the struct type declaring the field,
+// the field, and the reference of that struct inside the object p points to.
+func (c *Ctx) fieldRef(env *Env, recv *Val, name string) (types.Type, *types.Var, *Term, bool) {
+	p, ok := recv.Typ.Underlying().(*types.Pointer)
+	if !ok {
+		return nil, nil, nil, false
+	}
+	obj, index, _ := types.LookupFieldOrMethod(recv.Typ, true, env.pkg, name)
+	f, ok := obj.(*types.Var)
+	if !ok {
+		// unexported field of another package
+		if stt, ok := p.Elem().Underlying().(*types.Struct); ok {
+			for i := 0; i < stt.NumFields(); i++ {
+				if stt.Field(i).Name() == name {
+					f = stt.Field(i)
+					index = []int{i}
+				}
+			}
+		}
+		if f == nil {
+			return nil, nil, nil, false
+		}
+	}
+	var cur types.Type = p.Elem()
+	base := recv.T
+	for k, idx := range index {
+		stt, ok := cur.Underlying().(*types.Struct)
+		if !ok {
+			return nil, nil, nil, false
+		}
+		fld := stt.Field(idx)
+		if k == len(index)-1 {
+			return cur, fld, base, true
+		}
+		switch ft := fld.Type().Underlying().(type) {
+		case *types.Struct:
+			base = tApp(SV, c.embFun(cur, fld), base)
+			cur = fld.Type()
+		case *types.Pointer:
+			base = c.loadField(env.st, base, cur, fld).T
+			cur = ft.Elem()
+		default:
+			return nil, nil, nil, false
+		}
+	}
+	return nil, nil, nil, false
 }
 
 // readonlyObligation: a function declared readonly leaves every object that existed at entry unchanged
